@@ -49,6 +49,10 @@ ASSUMPTIONS = [
     'this is a monitored hypothesis and is NOT claimed (uniq=0) when a liquid–liquid immiscible pair is present '
     '(Water with Butanol/Octane/Hexane/Benzene/Toluene, Methanol with Octane/Hexane), where the one-liquid-phase dew '
     'equation has several roots',
+    'known-finding signatures (`…:documented-path:<class>`) are issued only when the documented algorithm of the method, '
+    're-run by the oracle on the object\'s own residual functions, ends at the very value the call returned AND the input '
+    'is in a documented class (immiscible pair / ideal guess stalled / secant diverges / trace component); every other '
+    'non-root is `…:undocumented` or `…:wrong-equation` and is never listed',
     'field-vs-float gap: the theorems are over ordered fields; the driver evaluates the same definitions in binary64',
 ]
 TRUSTED = ['Lean 4.33 kernel', 'harness/props/c08.py + lean/Driver/C08.lean',
@@ -257,15 +261,33 @@ class Run:
                 ok = False
                 # diagnosis (for the signature only)
                 rv_raw = z * K if which == 'B' else z / K
+                negative = bool((frac < 0).any())
                 if abs(zs - 1) > 1e-9 and abs(1. - rv_raw.sum()) <= RES_TOL_MULTI * max(1., zs):
                     cause = ':solves-unnormalised-equation'      # root of the equation written with the raw z
-                elif (frac < 0).any() and not imm:
-                    # the inner Wegstein loop on γ (dew) settled on a non-physical point: a negative mole fraction
-                    cause = ':negative-fraction'
                 else:
-                    # (with an immiscible pair the inner x–γ fixed point is not unique, so the solver's own residual
-                    #  restarted from the returned x is not informative: classed as unconverged)
-                    cause = (':unconverged' if imm else self.own_residual_diagnosis(obj, method, zn, T, P, frac)) + imm
+                    own = self.own_residual_diagnosis(obj, method, zn, T, P, frac)
+                    if own == ':wrong-equation' and not negative and not imm:
+                        cause = own
+                    else:
+                        # A non-converged result is a LISTED finding only when (1) the documented algorithm of this
+                        # method (ideal guess → flexsolve.aitken_secant on the object's own residual → bracketing
+                        # fallback, all with checkiter=False), re-run here step by step, ends at the very value the
+                        # call returned, and (2) the input is in one of the documented classes.  Anything else —
+                        # in particular a solver that fails where the documented one converges — is `:undocumented`.
+                        ref, stalled = self.reference_path(obj, method, zn, spec)
+                        documented = ref is not None and math.isfinite(ref) and abs(ref - val) <= 1e-9 * abs(val)
+                        trace = bool(zn[zn > 0].min() < 1e-8)
+                        kind = ':negative-fraction' if (negative and not imm) else ':unconverged'
+                        if not documented:
+                            cause = kind + ':undocumented' + imm
+                        elif imm:
+                            cause = kind + ':documented-path' + imm
+                        elif negative:
+                            cause = kind + ':documented-path' + (':trace-component' if trace else ':no-trace-component')
+                        elif stalled:
+                            cause = kind + ':documented-path:ideal-guess-stalled'
+                        else:
+                            cause = kind + ':documented-path:secant-diverges'
                 self.fail(f'{method}:not-a-root{cause}',
                           f'{where}: 1 − Σ {"z·K" if which == "B" else "z/K"} = {resid:.6g} with z/Σz and K recomputed '
                           f'from chemical.Psat, thermo.Gamma/Phi/PCF (tolerance {RES_TOL_MULTI})')
@@ -284,6 +306,79 @@ class Run:
         kappa = g * c * psat / f
         return dict(val=val, frac=frac, T=T, P=P, kappa=kappa, ok=ok, single=single, uniq=uniq_flag(ids, pkg, z),
                     z=z.copy(), zn=zn, psat=psat)
+
+    @staticmethod
+    def reference_path(obj, method, zn, spec):
+        """signature detail only: the documented algorithm of the four solve methods (as in bubble_point.py /
+        dew_point.py after fix C08-1), re-run with flexsolve on the object's own residual functions.
+        Returns (value it ends at | None, ideal T guess did not converge)."""
+        import flexsolve as flx
+        stalled = False
+        try:
+            mi = obj.maxiter
+            if method == 'bubT':
+                P = spec; a = zn / P
+                f = obj._T_error_ideal; y = a.copy()
+                lo, hi = obj.Tmin + 10, obj.Tmax - 10
+                fmax = f(lo, a, y)
+                if fmax < 0.: Tg = lo
+                else:
+                    fmin = f(hi, a, y)
+                    if fmin > 0.: Tg = hi
+                    else:
+                        Tg = flx.IQ_interpolation(f, lo, hi, fmax, fmin, None, obj.T_tol, 5e-12, (a, y),
+                                                  checkiter=False, checkbounds=False, maxiter=mi)
+                        stalled = abs(f(Tg, a, y)) > 1e-6
+                g = obj._T_error; args = (P, a, zn, y)
+                try:
+                    v = flx.aitken_secant(g, Tg, Tg + 1e-3, obj.T_tol, 5e-12, args, checkiter=False, maxiter=mi)
+                except RuntimeError:
+                    v = flx.IQ_interpolation(g, obj.Tmin, obj.Tmax, g(obj.Tmin, *args), g(obj.Tmax, *args), Tg,
+                                             obj.T_tol, 5e-12, args, checkiter=False, checkbounds=False, maxiter=mi)
+            elif method == 'dewT':
+                P = spec; a = zn * P
+                f = obj._T_error_ideal; x = a.copy()
+                lo, hi = obj.Tmin + 10., obj.Tmax - 10.
+                fmin = f(lo, a, x)
+                if fmin > 0.: Tg = lo
+                else:
+                    fmax = f(hi, a, x)
+                    if fmax < 0.: Tg = hi
+                    else:
+                        Tg = flx.IQ_interpolation(f, lo, hi, fmin, fmax, None, obj.T_tol, 5e-12, (a, x),
+                                                  checkiter=False, checkbounds=False, maxiter=mi)
+                        stalled = abs(f(Tg, a, x)) > 1e-6
+                g = obj._T_error; args = (P, zn, a, x)
+                try:
+                    v = flx.aitken_secant(g, Tg, Tg + 1e-3, obj.T_tol, 5e-12, args, maxiter=mi, checkiter=False)
+                except RuntimeError:
+                    v = flx.IQ_interpolation(g, obj.Tmin, obj.Tmax, g(obj.Tmin, *args), g(obj.Tmax, *args), Tg,
+                                             obj.T_tol, 5e-12, args, checkiter=False, checkbounds=False, maxiter=mi)
+            elif method == 'bubP':
+                T = min(max(spec, obj.Tmin), obj.Tmax)
+                ps = np.array([q(T) for q in obj.Psats])
+                zpg = zn * ps * obj.gamma(zn, T)
+                Pg = zpg.sum(); y = zpg / Pg
+                g = obj._P_error; args = (T, zpg, ps, y)
+                try:
+                    v = flx.aitken_secant(g, Pg, Pg - 1, obj.P_tol, 1e-9, args, checkiter=False, maxiter=mi)
+                except RuntimeError:
+                    v = flx.IQ_interpolation(g, obj.Pmin, obj.Pmax, g(obj.Pmin, *args), g(obj.Pmax, *args), Pg,
+                                             obj.P_tol, 5e-12, args, checkiter=False, checkbounds=False, maxiter=mi)
+            else:
+                T = spec
+                ps = np.array([q(T) for q in obj.Psats], dtype=float)
+                a = zn / ps
+                Pg = 1. / a.sum(); x = a * Pg
+                g = obj._P_error; args = (T, zn, a, ps, x)
+                try:
+                    v = flx.aitken_secant(g, Pg, Pg - 10, obj.P_tol, 5e-12, args, checkiter=False, maxiter=mi)
+                except RuntimeError:
+                    v = flx.IQ_interpolation(g, obj.Pmin, obj.Pmax, g(obj.Pmin, *args), g(obj.Pmax, *args), Pg,
+                                             obj.P_tol, 5e-12, args, checkiter=False, checkbounds=False, maxiter=mi)
+            return float(v), stalled
+        except Exception:
+            return None, stalled
 
     @staticmethod
     def own_residual_diagnosis(obj, method, zn, T, P, frac):
@@ -651,6 +746,33 @@ def gen_buf_case(rng):
     return Case(ops, {'buffer': True}) if len(ops) > 1 else None
 
 
+# miscible binaries with a pressure-maximum azeotrope under the activity-coefficient packages: the dew/bubble pressure
+# lies OUTSIDE the interval of the pure-component vapour pressures near the azeotrope
+AZEOTROPES = [(('Water', 'Propanol'), (0.1, 0.9)), (('Water', 'Ethanol'), (0.8, 0.99)), (('Ethanol', 'Toluene'), (0.1, 0.7)),
+              (('Ethanol', 'Benzene'), (0.3, 0.8)), (('Propanol', 'Toluene'), (0.2, 0.8)), (('Methanol', 'Benzene'), (0.2, 0.8))]
+
+
+def gen_azeo_case(rng, which=None):
+    (a, b), (lo, hi) = AZEOTROPES[rng.randrange(len(AZEOTROPES)) if which is None else which]
+    ids = [a, b] if rng.random() < 0.5 else [b, a]
+    pkg = rng.choice([1, 1, 2])
+    ops = [f'sys {pkg} {",".join(ids)}']
+    for _ in range(rng.randrange(3, 6)):
+        xb = round(rng.uniform(lo, hi), 3)            # fraction of the second-named chemical of the pair
+        z = [1 - xb, xb] if ids[0] == a else [xb, 1 - xb]
+        if rng.random() < 0.3: z = [v * rng.choice([2.0, 10.0, 0.1]) for v in z]
+        T = round(rng.uniform(335., 375.), 2)
+        r = rng.random()
+        if r < 0.3: ops.append(f'rt dew T {T!r} {zs(z)}')
+        elif r < 0.45: ops.append(f'rt bub T {T!r} {zs(z)}')
+        elif r < 0.65: ops.append(f'ord P {T!r} {zs(z)}')
+        elif r < 0.8: ops.append(f'pt {rng.choice(["dewP", "bubP"])} {T!r} 1.0 {zs(z)}')
+        else:
+            P = gen_spec(rng, ids, 'P')
+            if P is not None: ops.append(f'ord T {min(P, 3e5)!r} {zs(z)}')
+    return Case(ops, {'azeotrope': True})
+
+
 def gen_perm_sweep(rng, n):
     """all permutations (n ≤ 4) or a sample of 24 (n = 5; all 120 in the thorough tier's sweep) of one system,
     each for one method, plus the three k values."""
@@ -682,6 +804,9 @@ def generate(rng, tier, index, nworkers):
                 sp = gen_spec(rng, ids, 'P' if mm.endswith('T') else 'T')
                 if sp is not None: ops.append(f'scale {mm} {sp!r} {k!r} {zs(z)}')
         yield Case(ops, {'sweep': True})
+    # near-azeotropic miscible binaries (a fixed share: every pair at least once per worker in the quick tier)
+    for i in range(len(AZEOTROPES) if tier == 'quick' else 5 * len(AZEOTROPES)):
+        yield gen_azeo_case(rng, i % len(AZEOTROPES))
     # histories through one reused composition buffer (a fixed share, so every run has them for all four methods)
     for _ in range(6 if tier == 'quick' else 40):
         c = gen_buf_case(rng)
@@ -712,6 +837,13 @@ def corpus():
         Case(['sys 0 Benzene,Toluene,Hexane', 'ord P 360.0 0.3,0.3,0.4', 'ord T 101325.0 0.3,0.3,0.4',
               'rt bub T 360.0 0.3,0.3,0.4', 'rt dew P 101325.0 0.3,0.3,0.4', 'perm bubT 101325.0 2,0,1 0.3,0.3,0.4',
               'perm dewP 360.0 1,2,0 1e-09,0.5,0.5']),
+        # near a pressure-maximum azeotrope the dew/bubble pressure is outside [min Psat, max Psat]
+        Case(['sys 1 Water,Propanol'] + [f'rt dew T 360.0 {1 - x:.1f},{x:.1f}' for x in (0.1, 0.3, 0.5, 0.7, 0.9)]
+             + ['ord P 360.0 0.6,0.4', 'rt bub T 360.0 0.6,0.4'], {'azeotrope': True}),
+        Case(['sys 1 Water,Ethanol', 'rt dew T 351.0 0.15,0.85', 'rt dew T 351.0 0.08,0.92', 'rt dew T 351.0 0.02,0.98',
+              'ord P 351.0 0.1,0.9'], {'azeotrope': True}),
+        Case(['sys 2 Ethanol,Toluene', 'rt dew T 350.0 0.8,0.2', 'rt dew T 350.0 0.7,0.3', 'ord P 350.0 0.8,0.2',
+              'rt bub T 350.0 0.8,0.2'], {'azeotrope': True}),
         # one composition buffer reused across calls on the same objects (T-x-y sweep, in-place scaling, both objects)
         Case([f'sys 1 {W}', 'buf bubT:101325.0:0.95,0.05/bubT:101325.0:0.1,0.9/bubT:101325.0:*2.0/dewT:101325.0:=/'
                             'dewT:101325.0:0.6,0.4/bubT:101325.0:=',
